@@ -332,6 +332,9 @@ class Check:
                 log("  " + what)
                 nviol += 1
             exit_code = 1
+        if self.disagreements:
+            self.write_replay("%s-disagreements.json" % self.pid, {"property": self.pid, "seed": self.seed,
+                              "disagreements": self.disagreements[:40]})
         broken = []
         if b is not None and not b.ok:
             broken.append("build/audit stage '%s' failed: modules=%s bad_axioms=%s forbidden=%s" % (
